@@ -199,6 +199,7 @@ struct Pipeline {
             bool ok = plan.sw.compression == 1 ? model::gunzip_exact(raw, plain, err) : model::unxz_exact(raw, plain, err);
             if (!ok) {
                 V("C14", "I13/not-one-complete-stream", mo.name + ": " + err);
+                if (named) V("C15", "I14/invalid-file-under-final-name", mo.name + " was given its final name but is not one complete compressed stream: " + err);
                 return;
             }
             cx.ctr->add("outputs_decompressed");
@@ -226,9 +227,11 @@ struct Pipeline {
         } catch (ref::Malformed& e) {
             V("C02", "I02/malformed-cbor", mo.name + ": " + e.what());
             V("C13", "I12/closed-output-not-a-complete-file", mo.name + ": " + e.what());
+            if (named) V("C15", "I14/invalid-file-under-final-name", mo.name + " was given its final name but is not a complete output: " + e.what());
         } catch (ref::SchemaError& e) {
             V("C02", "I02/schema", mo.name + ": " + e.what());
             V("C13", "I12/closed-output-not-a-complete-file", mo.name + ": " + e.what());
+            if (named) V("C15", "I14/invalid-file-under-final-name", mo.name + " was given its final name but is not a complete output: " + e.what());
         }
         // the library's own reader
         CDNS::FilePreamble rpre;
